@@ -12,6 +12,7 @@ package c12
 import (
 	"fmt"
 	"os"
+	"sync"
 	"testing"
 	"time"
 
@@ -30,7 +31,9 @@ type schedCase struct {
 	Rules []sched.Rule `json:"rules"`
 }
 
-var writerSteps = []string{"write-received", "write-before-tempfile", "write-file-created", "write-file-registered", "write-before-encode", "write-before-sync", "write-return-buffer"}
+// "write-sorting" is not a library hook: it is the first comparison a background writer asks of an
+// element after it received its run (mx.LessHook), i.e. the writer is inside its sort.
+var writerSteps = []string{"write-received", "write-sorting", "write-before-tempfile", "write-file-created", "write-file-registered", "write-before-encode", "write-before-sync", "write-return-buffer"}
 var callerSteps = []string{"push-handoff", "push-got-buffer", "finalise-entry", "finalise-reads-files", "finalise-before-seek", "finalise-before-decode", "pull-before-decode"}
 
 func genCase(t *rapid.T) schedCase {
@@ -64,7 +67,7 @@ func genCase(t *rapid.T) schedCase {
 		r.TimeoutMs = rapid.SampledFrom([]int{30, 60, 120}).Draw(t, "timeout")
 		switch rapid.IntRange(0, 6).Draw(t, "template") {
 		case 0, 1: // Finalise overtakes a background writer
-			r.Step = rapid.SampledFrom(writerSteps[:6]).Draw(t, "w-step")
+			r.Step = rapid.SampledFrom(writerSteps[:7]).Draw(t, "w-step")
 			k := rapid.IntRange(0, max(0, spills-1)).Draw(t, "w-index")
 			r.Occ = k
 			if r.Step == "write-before-encode" {
@@ -73,7 +76,7 @@ func genCase(t *rapid.T) schedCase {
 			r.Until = rapid.SampledFrom([]string{"finalise-entry", "finalise-reads-files", "finalise-before-seek", "finalise-before-decode", "finalise-returned"}).Draw(t, "until-finalise")
 			r.UntilOcc = 0
 		case 2: // a later writer finishes while an earlier one is held
-			r.Step = rapid.SampledFrom(writerSteps[:6]).Draw(t, "w-step")
+			r.Step = rapid.SampledFrom(writerSteps[:7]).Draw(t, "w-step")
 			k := rapid.IntRange(0, max(0, spills-1)).Draw(t, "w-index")
 			r.Occ = k
 			if r.Step == "write-before-encode" {
@@ -82,9 +85,13 @@ func genCase(t *rapid.T) schedCase {
 			r.Until = "write-return-buffer"
 			r.UntilOcc = k + rapid.IntRange(0, 1).Draw(t, "later")
 		case 4: // two background writers reach the same step together (writer k waits for writer k+1)
-			r.Step = rapid.SampledFrom([]string{"write-file-created", "write-before-tempfile", "write-file-registered", "write-before-sync"}).Draw(t, "barrier-step")
+			r.Step = rapid.SampledFrom([]string{"write-sorting", "write-file-created", "write-before-tempfile", "write-file-registered", "write-before-sync"}).Draw(t, "barrier-step")
 			r.Occ = rapid.IntRange(0, max(0, spills-2)).Draw(t, "barrier-k")
 			r.Until, r.UntilOcc = r.Step, r.Occ+1
+			if r.Step == "write-sorting" && rapid.Bool().Draw(t, "until-sorted") {
+				// writer k stays in its first comparison until another writer has finished sorting
+				r.Until, r.UntilOcc = "write-before-tempfile", r.Occ
+			}
 		case 3: // the caller is held until a writer reaches a step
 			r.Step = rapid.SampledFrom(callerSteps).Draw(t, "c-step")
 			r.Occ = rapid.IntRange(0, max(0, spills)).Draw(t, "c-occ")
@@ -110,8 +117,37 @@ func check(c schedCase) *vlib.Failure {
 		return vlib.Failf("setup", "%v", err)
 	}
 	sc := sched.New(c.Rules, nil)
-	morass.VerifHook = sc.Hook
-	defer func() { morass.VerifHook = nil }()
+	// a writer is "sorting" from write-received to write-before-tempfile; its first comparison in
+	// that window is reported to the scheduler as the step write-sorting
+	var smu sync.Mutex
+	sorting := map[int]int{} // goroutine -> 1 received, 2 first comparison reported
+	morass.VerifHook = func(step string, f *os.File, i int) {
+		switch step {
+		case "write-received":
+			smu.Lock()
+			sorting[sched.GID()] = 1
+			smu.Unlock()
+		case "write-before-tempfile":
+			smu.Lock()
+			delete(sorting, sched.GID())
+			smu.Unlock()
+		}
+		sc.Hook(step, f, i)
+	}
+	less := func() {
+		g := sched.GID()
+		smu.Lock()
+		first := sorting[g] == 1
+		if first {
+			sorting[g] = 2
+		}
+		smu.Unlock()
+		if first {
+			sc.Hook("write-sorting", nil, 0)
+		}
+	}
+	mx.LessHook.Store(&less)
+	defer func() { morass.VerifHook = nil; mx.LessHook.Store(nil) }()
 
 	type result struct {
 		e   *mx.Err
@@ -204,6 +240,12 @@ func classes(c schedCase) []string {
 	}
 	if len(c.H.Cycles) > 1 {
 		l = append(l, "two-cycles")
+	}
+	for _, r := range c.Rules {
+		if r.Step == "write-sorting" && c.H.Chunk >= 2 && r.Occ+1 < spills && (r.Until == "write-sorting" || r.Until == "write-before-tempfile") {
+			l = append(l, "writer-held-inside-its-sort-until-the-next-sorts")
+			break
+		}
 	}
 	if over || spills >= 2 {
 		l = append(l, vlib.NT)
